@@ -477,3 +477,28 @@ kfs_harness! {
         assert!(false, "KV-SANITY: reachable end of harness");
     }
 }
+
+
+// experiment: tempfile stub after a symbolic inode table
+kfs_harness! {
+    #[kani::unwind(48)]
+    fn exp_tempfile_after_symbolic_inodes() {
+        kfs::reset();
+        kfs::mkdir(kfs::D_W);
+        kfs::mkdir(kfs::D_WT);
+        let c: u8 = kani::any();
+        if c != 0 {
+            kfs::install(kfs::D_W, kfs::S_A, kfs::any_published(kfs::S_A, c));
+        }
+        // a lookup that may hit (descriptor table becomes symbolic)
+        let f = std::fs::File::open(kfs::path_of(kfs::D_W, kfs::S_A));
+        let t = tempfile::NamedTempFile::new_in(kfs::path_of(kfs::D_WT, kfs::NONE));
+        assert!(t.is_ok(), "KV-MODEL: temp file created");
+        let t = t.unwrap();
+        let p: &std::path::Path = t.path();
+        let loc = kfs::classify(p);
+        assert!(loc.ok && loc.dir == kfs::D_WT, "KV-MODEL: temp path classified");
+        std::mem::forget(f);
+        std::mem::forget(t);
+    }
+}
